@@ -48,6 +48,20 @@ def run(tier):
     nt += sum(1 for evs in runs.values() if sum(1 for p_ in ("ckpt", "seg1", "seg2", "wal") if evs[0][p_]) >= 2)
     k = sorted(runs)[0]
     rep.sample({x: runs[k][0][x] for x in ("ups", "ckpt", "seg1", "seg2", "wal", "L")})
+    # checkpoints written by the repository's own CheckpointManager while the flusher keeps going (0-2 flushes land between the
+    # snapshot and create_checkpoint; published with compact_segments), segments by the real StreamingPersistence
+    tr = os.path.join(wd, "ckptmgr.ndjson")
+    vlib.vh(["recov", "ckptmgr", "--seed", vlib.seed() + 3, "--n", 3000 if thorough else 300, "--out", tr])
+    runs, bad = vlib.validate_runs(rep, "RecoveryTrace", "RecoveryTrace", tr, wd, "checkpoint_manager", describe=describe,
+                                   strip=("fold", "fold_wal", "node", "node2"))
+    nt += len(runs)
+    os.remove(tr)
+    # a recovered state far larger than any mailbox bound (one key rewritten 3 000 / 12 000 / 40 000 times over eight segments,
+    # 200 bystanders), applied to a real node the way the server does at start-up
+    tr = os.path.join(wd, "bignode.ndjson")
+    vlib.vh(["recov", "bignode", "--out", tr])
+    runs, bad = vlib.validate_runs(rep, "RecoveryTrace", "RecoveryTrace", tr, wd, "big_recovered_state", describe=describe, strip=("hot",))
+    os.remove(tr)
     rep.cov["distinct_nontrivial"] = nt
     rep.cov["rule"] = ("a case is one persisted layout (checkpoint / two segments / WAL files, duplicates allowed) of a set of "
                        "updates; non-trivial = at least two kinds of places are populated")
